@@ -9,7 +9,8 @@ def main():
         h = vf.build_harness(scratch)
         if doc.get('concurrent'):
             c = doc['concurrent']
-            ev, tries = vf.reobserve_conc(h, c, c.get('tier', 'quick'), c.get('seed', 1), scratch, doc['demand'], attempts=5)
+            ev, tries = vf.reobserve_conc(h, dict(c, name=c['driver']), c.get('tier', 'quick'), c.get('seed', 1), scratch, doc['demand'], attempts=5,
+                                          prefixes=[doc.get('property', '') + '.'])
             if ev is not None:
                 print('observed again (concurrent run %d):' % tries, json.dumps(ev))
                 print('REPRODUCED property=%s failed demands of the specification: %s' % (doc.get('property'), doc['demand']))
